@@ -1080,6 +1080,6 @@ def selftest():
 
 
 SUBS = [
-    Sub(SUBN, history_strategy, run_history, dict(quick=24000, thorough=250000),
+    Sub(SUBN, history_strategy, run_history, dict(quick=24000, thorough=160000),
         budget_s=dict(quick=40, thorough=520), fixed_cases=fixed_cases),
 ]
